@@ -165,3 +165,9 @@ def r16_4(ctx):
                       sample={"slot": slot, "value": got.get(slot)})
         fn = c.func.value if isinstance(c.func, ast.Attribute) else c.func
         ctx.check(n.key(fn) == "self._ode()", "Stage.der uses the stage's declared dynamics", detail="another function", expected="self._ode()", found=n.key(fn), fi=f, node=c)
+
+
+@rule("R16.5", min_instances=4, desc="der() of a B-spline signal: every derivative level divides by the horizon (physical time; shared with C17)")
+def r16_5(ctx):
+    from .c17 import r17_2
+    r17_2(ctx)
